@@ -316,6 +316,10 @@ def run(ck, F):
     redeclaration_operands(ck, F, 'C02')
     import c12 as _c12
     _c12.level_given(ck, F, 'C02')
+    # a substitution handed out by the expression factory exposes its bindings under operator[]: what it was given, and the
+    # parameter itself for what it was not given
+    import c16 as _c16
+    _c16.latest_binding_rule(ck, F, 'C02')
 
     # elements the client builds in place (tokens of a pragma, captures of a closure, designators of a using-declaration): no
     # factory stands between the client's arguments and the node, the constructor is the contract
